@@ -289,6 +289,37 @@ def check_case(ctx: Ctx, c: Dict[str, Any], k: int = 0) -> None:
     ctx.count(key=json.dumps([name, parts, c["g"], c["g2"]]), nontrivial=True)
 
 
+def check_empty_composites(ctx: Ctx) -> None:
+    """A composite without members is the identity in every view."""
+    import torch
+
+    from deepali.core.grid import Grid
+    from deepali.spatial import MultiLevelTransform, SequentialTransform
+
+    for D in (2, 3):
+        g = Grid(size=(6, 5, 4)[:D], spacing=(1.0, 1.5, 0.5)[:D])
+        x = torch.tensor([[[0.3, -0.2, 0.5][:D], [-0.7, 0.1, 0.0][:D]]])
+        for cls in (SequentialTransform, MultiLevelTransform):
+            sig = dict(view="empty composite", model=cls.__name__, D=D)
+            try:
+                t = cls(g)
+                y = t(x)
+                if max_err(y, x) > 0:
+                    ctx.violation(dict(**sig, what="call"), f"{cls.__name__}(grid) without members moves points by {max_err(y, x):.3g}", dict(scenario="empty", **sig))
+                T = t.tensor()
+                eye = torch.eye(D, D + 1).unsqueeze(0)
+                if tuple(T.shape[-2:]) != (D, D + 1) or max_err(T.reshape(-1, D, D + 1)[0], eye[0]) > 0:
+                    ctx.violation(dict(**sig, what="tensor"), f"{cls.__name__}(grid).tensor() is not the identity matrix: {T.tolist()}", dict(scenario="empty", **sig))
+                u = t.disp()
+                if float(u.abs().max()) > 0 or tuple(u.shape[2:]) != tuple(g.shape):
+                    ctx.violation(dict(**sig, what="disp"), f"{cls.__name__}(grid).disp() is not a zero field on the grid", dict(scenario="empty", **sig))
+                if len(t) != 0 or "0" in t or 0 in t:
+                    ctx.violation(dict(**sig, what="container"), f"{cls.__name__}(grid) reports members", dict(scenario="empty", **sig))
+            except Exception as ex:
+                ctx.violation(dict(**sig, exc=type(ex).__name__), f"{cls.__name__}(grid) without members raised {type(ex).__name__}: {str(ex)[:120]}", dict(scenario="empty", **sig))
+            ctx.count(key=json.dumps(sig, sort_keys=True))
+
+
 def check_multilevel(ctx: Ctx, cases: List[dict]) -> None:
     """A multi-level composite adds the displacements of its members."""
     from deepali.spatial import MultiLevelTransform
@@ -346,6 +377,7 @@ def run(ctx: Ctx) -> None:
         if tier == "thorough":
             check_case(ctx, c, k + ctx.seed + 1)
     check_multilevel(ctx, cases)
+    check_empty_composites(ctx)
     ctx.traces = len(cases)
     ctx.sample({k: cases[0][k] for k in ("name", "parts", "g", "M", "W")})
     ctx.sample({k: cases[-1][k] for k in ("name", "parts", "g", "M", "W")})
